@@ -206,7 +206,7 @@ def task_wide(t):
         b = sweep.Builder(bdd, U)
         qsets = list(sweep.subsets(U.names))
         for fu in U.all_functions(names):
-            if focus is not None and [list(lv), fu] != list(focus):
+            if focus is not None and sweep.norm([lv, fu]) != sweep.norm(focus):
                 continue
             try:
                 u = b.verified(fu)
